@@ -116,6 +116,13 @@ var awkwardCatalogue = []awkward{
 	{"stack", func() any { return stackage.And().Push("in") }},
 	{"alias", func() any { return MyStack(stackage.Or().Push(1)) }},
 	{"condition", func() any { return stackage.Cond("k", stackage.Eq, "v") }},
+	{"capacity-stack", func() any { return stackage.And(4).Push("c1") }},
+	{"full-capacity-stack", func() any { return stackage.Or(1).Push("full") }},
+	{"capacity-alias", func() any { return MyStack(stackage.List(3).Push("c1")) }},
+	{"readonly-stack", func() any { return stackage.And().Push("ro").SetReadOnly(true) }},
+	{"mutex-stack", func() any { return stackage.Or().Push("m").SetMutex() }},
+	{"fifo-nonest-stack", func() any { return stackage.List().SetFIFO(true).Push("f").SetNoNesting(true) }},
+	{"empty-stack", func() any { return stackage.Not() }},
 	{"empty-keyword-condition", func() any { return stackage.Cond("", stackage.Eq, "v") }},
 	{"init-condition-with-operator-only", func() any { var c stackage.Condition; c.Init(); c.SetOperator(stackage.Ne); return c }},
 	{"condition-with-stack-expression", func() any { return stackage.Cond("k", stackage.Ge, stackage.Or().Push("a", "b")) }},
